@@ -165,6 +165,42 @@ fn main() {
                     rep.fail("justification_verify_mismatch", format!("ReplicaNewView::verify (timeout justification) = {r3:?}, specification says {want}"), case.clone());
                 }
             }
+            "tqc3" => {
+                let nested = {
+                    let vote = vprev("ok");
+                    let signers: Vec<usize> = (1..=n).collect();
+                    CommitQC { message: vote.clone(), signers: bitmap(&signers, n), signature: agg_commit(&vote, &signers, "ok") }
+                };
+                let msgs = [
+                    ReplicaTimeout { view: view_of(3, "ok"), high_vote: None, high_qc: None },
+                    ReplicaTimeout { view: view_of(3, "ok"), high_vote: Some(v1("ok")), high_qc: Some(nested) },
+                    ReplicaTimeout { view: view_of(3, "ok"), high_vote: Some(vprev("ok")), high_qc: None },
+                ];
+                let memb: Vec<Vec<usize>> = case["memb"].as_array().unwrap().iter().map(setof).collect();
+                let mut map: BTreeMap<ReplicaTimeout, Signers> = BTreeMap::new();
+                let mut sigs = vec![];
+                for (gi, m) in msgs.iter().enumerate() {
+                    let signers: Vec<usize> = (1..=n).filter(|v| memb[*v - 1].contains(&(gi + 1))).collect();
+                    if signers.is_empty() {
+                        continue;
+                    }
+                    map.insert(m.clone(), bitmap(&signers, n));
+                    for p in &signers {
+                        sigs.push(f.sign(*p, ChonkyMsg::ReplicaTimeout(m.clone())).sig);
+                    }
+                }
+                if map.len() != case["ngroups"].as_u64().unwrap() as usize {
+                    rep.count("tqc_case_not_materialisable");
+                    continue;
+                }
+                let t = TimeoutQC { view: view_of(3, "ok"), map, signature: validator::AggregateSignature::aggregate(sigs.iter()) };
+                let want = want.unwrap();
+                match catch(|| t.verify(g, EPOCH, sch).is_ok()) {
+                    Err(p) => rep.fail("tqc_verify_panic", format!("TimeoutQC::verify panicked: {p}"), case.clone()),
+                    Ok(x) if x != want => rep.fail(if x { "tqc_accepts_invalid" } else { "tqc_rejects_valid" }, format!("TimeoutQC::verify = {x}, specification says {want}"), case.clone()),
+                    _ => {}
+                }
+            }
             "add" => {
                 let mut qc = CommitQC::new(v1("ok"), sch);
                 let seq = case["seq"].as_array().unwrap();
